@@ -26,7 +26,7 @@ from vf import mc_common as mc
 from vf.core import MachineryError, exc_record
 
 META = {
-    "ready": False,
+    "ready": True,
     "category": "model_checking",
     "technique": "TLA+ spec (ModelCache.tla) of files/mtimes/cache file/shared libraries/options/version model-checked by TLC; every transition of its state graphs replayed on real folders through transfer_model with a differential oracle (fresh compile)",
     "text": "TLC checks ResultIsFresh / HitImpliesFresh / EditInvalidates / TransferLeavesValidCache / HitIsReadOnly for all histories of edit, add, option change, version change, transfer(cache|codegen), release over 5 files in 3 folders, 4 option sets, 2 versions (state spaces of 5e3..5e5 states, quotient by 'newer than the cache'); the complete transition graphs of the as-built variant are replayed (transition tour + random walks of length 40) against transfer_model on real temp folders with os.utime driven by the spec's logical clock, and after every transfer the returned model (names, order, types, attributes at 3 parameter vectors, aliases, 4 functions at integer points) is compared with a fresh compile of the current sources and options.",
